@@ -1268,9 +1268,13 @@ def k_slicebox(rep):
             limit = Lv + {1: 0, 2: 1, 4: 2}[factor]
             box = [[0.0, 1.0], [0.0, 1.0], [0.0, 1.0]]
             box[cn] = [lo_phys, lo_phys + nn * dxn]
-            dx = [[9.0, 9.0, 9.0] for _ in range(limit + 1)]
-            dx[Lv] = [0.5, 0.5, 0.5]
-            dx[Lv][cn] = dxn
+            # cell sizes of every level, consistent with a refinement ratio of two (code that derives the expansion factor from them
+            # instead of from the level numbers is as right as the original)
+            base = [0.5, 0.5, 0.5]
+            base[cn] = dxn
+            dx = [[b * 2.0 ** (Lv - l) for b in base] for l in range(limit + 1)]
+            for d in range(3):
+                ctx.assume(fab.lo[d].t >= 0)        # a plotfile box: no cell left of the domain's first
             args = {'Lv': Lv, 'pos': pos, 'fidxs': list(comps[:1]) + [None] + list(comps[1:]), 'limit_level': limit, 'indexes': [lo, hi], 'cfile': 'file',
                     'offset': S(fab.start), 'box': box, 'cx': cx, 'cy': cy, 'cn': cn, 'dx': dx, 'bidx': 7}
             with patch.Patched(mods, kfs, stubs=stub), common.quiet():
@@ -1357,7 +1361,9 @@ def k_slicebox(rep):
                 Lv = 0
                 limit = Lv + factor - 1
                 args = {'Lv': Lv, 'fidxs': [comps[0], comps[1], None], 'limit_level': limit, 'indexes': [[S(fab.lo[0].t), S(fab.lo[1].t)], list(fab.hi)], 'cfile': 'file',
-                        'offset': S(fab.start), 'box': [[0.0, 1.0], [0.0, 1.0]], 'cx': 0, 'cy': 1, 'dx': [[0.5, 0.5]] * (limit + 1)}
+                        'offset': S(fab.start), 'box': [[0.0, 1.0], [0.0, 1.0]], 'cx': 0, 'cy': 1, 'dx': [[0.5 / 2 ** l, 0.5 / 2 ** l] for l in range(limit + 1)]}
+                for d in range(2):
+                    ctx.assume(fab.lo[d].t >= 0)
                 with patch.Patched(mods, kfs, stubs=stub), common.quiet():
                     o = bl.plate_box(args)
                 what = 'K-slicebox plate_box FAB %d factor %d' % (which, factor)
